@@ -195,8 +195,9 @@ class RunResult:
 
 def _drive(spec, A, stratum, index, producer, ref_mode="inproc"):
     """Common loop: `producer(sim, fb)` yields the next step or None."""
-    # every other history runs with the recycled-id allocator seam (idseam.py)
-    ids = "recycled" if index % 2 else "real"
+    # the allocator seam (idseam.py): id() of library objects is deterministic
+    # and recycles identifiers adversarially, in every generated history
+    ids = "recycled"
     schedule = {"source": spec, "args": A, "steps": [], "ref": ref_mode, "ids": ids}
     try:
         sim = Sim(spec, A, ref_mode=ref_mode, ids=ids)
